@@ -63,11 +63,23 @@ class BuildLock:
         self.f.close()
 
 
+def gen_coqproject():
+    """_CoqProject = -Q . IBL + every lib/*.v and C??/*.v (coqdep orders them)."""
+    files = sorted(str(p.relative_to(COQ)) for p in list((COQ / "lib").glob("*.v")) +
+                   [q for d in sorted(COQ.glob("C[0-9][0-9]")) for q in d.glob("*.v")])
+    txt = "-Q . IBL\n" + "\n".join(files) + "\n"
+    cp = COQ / "_CoqProject"
+    if not cp.exists() or cp.read_text() != txt:
+        cp.write_text(txt)
+        return True
+    return False
+
+
 def coq_make(targets, timeout=3000):
     """Full .vo build of the given targets (and their dependencies)."""
     with BuildLock():
-        if not (COQ / "Makefile").exists() or \
-                (COQ / "Makefile").stat().st_mtime < (COQ / "_CoqProject").stat().st_mtime:
+        changed = gen_coqproject()
+        if changed or not (COQ / "Makefile").exists():
             rc, out = sh("coq_makefile -f _CoqProject -o Makefile", cwd=COQ, timeout=120)
             if rc != 0:
                 return False, out
